@@ -36,6 +36,25 @@ def run(ctx):
         closure(ctx, kind, exe, "n5l2", [2, 1, 2, 1, 3], 2, props)
         closure(ctx, kind, exe, "n6l1", [2, 1, 2, 1, 3, 1], 1, props)
         steps, n = 20000, 100
+    # directed histories beyond the closure: long lists (17..64 nodes) in the orders where merge sort's halves do
+    # not interleave (descending, rotated at the middle), ascending, organ pipe, random; after the sort the tail
+    # must still be the true last element: push_back, walk, reverse, sort again, push_front, walk.
+    # One pool: node i has value i (two spare nodes with the largest and the smallest value).
+    PN = 34 if ctx.quick else 66
+    pvals = list(range(1, PN - 1)) + [PN, 0]
+    lines = []
+    for L in ((17, 20, 32) if ctx.quick else (17, 18, 20, 24, 33, 40, 64)):
+        asc = list(range(1, L + 1))
+        for order in (asc[::-1], asc[L // 2:] + asc[:L // 2], asc, asc[:L // 2] + asc[L // 2:][::-1],
+                      rng.sample(asc, L), asc[L // 2 + 1:] + asc[:L // 2 + 1]):
+            lines.append("reset")
+            lines += [f"1 1 {n}" for n in order]                  # push_back(list 1, node n)
+            lines += ["7 1", "13 1", f"1 1 {PN - 1}", "13 1", "6 1", "7 1", f"0 1 {PN}", "13 1"]
+            lines += (["11 1 0 0 0", "11 1 1 0 0"] if kind[0] == "dlist" else ["11 1 0"])
+    script = ctx.work / "patterns.ops"
+    script.write_text("\n".join(lines) + "\n")
+    impl_phase(ctx, "patterns", exe, ["replay", script], ["".join(chr(48 + v) for v in pvals), 1, 1], kind[2], vdef(pvals),
+               consts(pvals, 1), props)
     vals = [1 + rng.randrange(5) for _ in range(n)]
     impl_phase(ctx, "rand", exe, ["random", ctx.seed, steps, 2], ["".join(map(str, vals)), 3, 1], kind[2], vdef(vals),
                consts(vals, 3), props)
